@@ -148,6 +148,9 @@ pub fn report_branch_log(b: &BoxB, out: &mut Out) {
     for v in &log.violations {
         out.push(format!("branchviolation {}", v.what.replace(' ', "_")));
     }
+    for r in &log.valsel_records {
+        out.push(r.clone());
+    }
 }
 
 // ---------------------------------------------------------------------------------------------
@@ -395,4 +398,521 @@ pub fn gen_objective(r: &mut Rng, m: &Model) -> View {
 
 pub fn solution_of(s: &Solution, vars: &Vars) -> Option<Vec<i32>> {
     extract(s.as_reference(), vars)
+}
+
+// ---------------------------------------------------------------------------------------------
+// C12: root bounds along a posting sequence
+// ---------------------------------------------------------------------------------------------
+
+pub fn scen_bounds(m: &Model, setup: &Setup, r: &mut Rng, out: &mut Out) {
+    use pumpkin_solver::variables::TransformableVariable;
+    let mut solver = Solver::with_options(setup.opts.to_solver_options());
+    let mut vars = Vars { ids: vec![], lits: vec![] };
+    let mut sr = Rng::new(setup.style_seed);
+    for d in &m.vars {
+        declare_var(&mut solver, &mut vars, d, None, sr.next());
+    }
+    let n = m.vars.len();
+    let mut prev: Vec<(i32, i32)> = m.vars.iter().map(|d| (d.lb(), d.ub())).collect();
+    // random views observed at every step
+    let views: Vec<View> = (0..3)
+        .map(|_| {
+            let mut scale = r.i32(-3, 3);
+            if scale == 0 {
+                scale = -2;
+            }
+            View { scale, offset: r.i32(-4, 4), var: r.usize(n) }
+        })
+        .collect();
+    for step in 0..=m.cons.len() {
+        let prefix = Model { vars: m.vars.clone(), cons: m.cons[..step].to_vec() };
+        out.push(format!("model {}", prefix.emit()));
+        for x in 0..n {
+            let lb = solver.lower_bound(&vars.ids[x]);
+            let ub = solver.upper_bound(&vars.ids[x]);
+            out.push(format!("bounds step{} {} {} {}", step, x, lb, ub));
+            if lb < prev[x].0 || ub > prev[x].1 {
+                out.push(format!("bad bounds-not-monotone step={} x={} [{},{}] after [{},{}]", step, x, lb, ub, prev[x].0, prev[x].1));
+            }
+            prev[x] = (lb, ub);
+            if let Some(l) = vars.lits[x] {
+                // literal value must agree with the bounds of its 0-1 variable
+                let v = solver.get_literal_value(l);
+                let expect = if lb == ub { Some(lb == 1) } else { None };
+                if v != expect {
+                    out.push(format!("bad literal-value x={} value={:?} bounds=[{},{}]", x, v, lb, ub));
+                }
+                let nv = solver.get_literal_value(!l);
+                if nv != expect.map(|b| !b) {
+                    out.push(format!("bad negated-literal-value x={} value={:?} bounds=[{},{}]", x, nv, lb, ub));
+                }
+            }
+        }
+        for w in &views {
+            let v = vars.ids[w.var].scaled(w.scale).offset(w.offset);
+            let lb = solver.lower_bound(&v);
+            let ub = solver.upper_bound(&v);
+            let mut ws = String::new();
+            w.emit(&mut ws);
+            out.push(format!("vbounds step{}{} {} {}", step, ws, lb, ub));
+            // exact correspondence with the view rule applied to the inner bounds
+            let (il, iu) = (solver.lower_bound(&vars.ids[w.var]) as i64, solver.upper_bound(&vars.ids[w.var]) as i64);
+            let (a, b) = (w.scale as i64 * il + w.offset as i64, w.scale as i64 * iu + w.offset as i64);
+            if (lb as i64, ub as i64) != (a.min(b), a.max(b)) {
+                out.push(format!("bad view-bounds-rule view={} reported=[{},{}] expected=[{},{}]", ws.trim(), lb, ub, a.min(b), a.max(b)));
+            }
+        }
+        if step == m.cons.len() {
+            break;
+        }
+        let tag = None;
+        if post_cons(&mut solver, &vars, &m.cons[step], Mode::Post, tag, sr.next()).is_err() {
+            let prefix = Model { vars: m.vars.clone(), cons: m.cons[..=step].to_vec() };
+            out.push(format!("model {}", prefix.emit()));
+            out.push("verdict posterr unsat");
+            out.meta(format!("posterr at={} kind={}", step, m.cons[step].full_kind()));
+            break;
+        }
+    }
+}
+
+// ---------------------------------------------------------------------------------------------
+// C07: one model under several configurations
+// ---------------------------------------------------------------------------------------------
+
+pub fn scen_configs(m: &Model, setups: &[Setup], what: &str, spec: &OptSpec, out: &mut Out) {
+    for (i, setup) in setups.iter().enumerate() {
+        out.meta(format!("config {} {}", i, setup.describe()));
+        match what {
+            "satisfy" => scen_satisfy(m, setup, out),
+            "iterate" => scen_iterate(m, setup, 3000, out),
+            _ => {
+                let _ = scen_optimise(m, setup, spec, None, out);
+            }
+        }
+    }
+}
+
+// ---------------------------------------------------------------------------------------------
+// C11: interrupting a solve at poll k, then asking again
+// ---------------------------------------------------------------------------------------------
+
+pub fn scen_interrupt(m: &Model, setup: &Setup, what: &str, spec: &OptSpec, r: &mut Rng, thorough: bool, out: &mut Out) {
+    // uninterrupted run with a counting condition
+    let mut count_out = Out::default();
+    let polls = match what {
+        "satisfy" | "iterate" => {
+            let Some(mut built) = build_or_report(m, setup, &mut count_out) else {
+                out.lines.extend(count_out.lines);
+                return;
+            };
+            let mut b = make_brancher(&setup.bspec, &built.solver, &built.vars.ids);
+            let mut t = StopAt::never();
+            let _ = built.solver.satisfy(&mut b, &mut t);
+            t.polls
+        }
+        _ => scen_optimise(m, setup, spec, None, &mut count_out),
+    };
+    if count_out.lines.iter().any(|l| l.starts_with("verdict posterr")) {
+        out.lines.extend(count_out.lines);
+        return;
+    }
+    out.meta(format!("uninterrupted polls={}", polls));
+    let mut ks: Vec<u64> = vec![0, 1, 2, polls.saturating_sub(1), polls];
+    let extra = if thorough { 40 } else { 6 };
+    for _ in 0..extra {
+        ks.push(r.below(polls + 1));
+    }
+    ks.sort();
+    ks.dedup();
+    for k in ks {
+        out.meta(format!("interrupt at poll {}", k));
+        match what {
+            "satisfy" => {
+                let Some(mut built) = build_or_report(m, setup, out) else { return };
+                let mut b = make_brancher(&setup.bspec, &built.solver, &built.vars.ids);
+                let mut t = StopAt::at(k);
+                match built.solver.satisfy(&mut b, &mut t) {
+                    SatisfactionResult::Satisfiable(sol) => {
+                        let _ = sol_record(out, &format!("interrupted@{}", k), sol.as_reference(), &built.vars);
+                    }
+                    SatisfactionResult::Unsatisfiable => out.push(format!("verdict interrupted@{} unsat", k)),
+                    SatisfactionResult::Unknown => out.meta("unknown"),
+                }
+                // ask again, uninterrupted, on the same solver and brancher
+                let mut t = StopAt::never();
+                match built.solver.satisfy(&mut b, &mut t) {
+                    SatisfactionResult::Satisfiable(sol) => {
+                        let _ = sol_record(out, &format!("resumed@{}", k), sol.as_reference(), &built.vars);
+                    }
+                    SatisfactionResult::Unsatisfiable => out.push(format!("verdict resumed@{} unsat", k)),
+                    SatisfactionResult::Unknown => out.push(format!("nonterm resumed@{}", k)),
+                }
+                report_branch_log(&b, out);
+            }
+            "iterate" => {
+                let Some(mut built) = build_or_report(m, setup, out) else { return };
+                let mut b = make_brancher(&setup.bspec, &built.solver, &built.vars.ids);
+                let mut sols: Vec<Vec<i32>> = vec![];
+                let mut finished = false;
+                // interrupted iteration: polls are counted across the whole iteration
+                {
+                    let mut t = StopAt::at(k);
+                    let mut it = built.solver.get_solution_iterator(&mut b, &mut t);
+                    loop {
+                        match it.next_solution() {
+                            IteratedSolution::Solution(sol, _, _) => match extract(sol.as_reference(), &built.vars) {
+                                Some(vs) => sols.push(vs),
+                                None => {
+                                    out.push("partial iterate-interrupted");
+                                    break;
+                                }
+                            },
+                            IteratedSolution::Finished | IteratedSolution::Unsatisfiable => {
+                                finished = true;
+                                break;
+                            }
+                            IteratedSolution::Unknown => break,
+                        }
+                        if sols.len() > 3000 {
+                            break;
+                        }
+                    }
+                }
+                // continue with a fresh iterator on the same solver
+                if !finished && sols.len() <= 3000 {
+                    let mut t = StopAt::never();
+                    let mut it = built.solver.get_solution_iterator(&mut b, &mut t);
+                    loop {
+                        match it.next_solution() {
+                            IteratedSolution::Solution(sol, _, _) => match extract(sol.as_reference(), &built.vars) {
+                                Some(vs) => sols.push(vs),
+                                None => {
+                                    out.push("partial iterate-resumed");
+                                    break;
+                                }
+                            },
+                            IteratedSolution::Finished | IteratedSolution::Unsatisfiable => {
+                                finished = true;
+                                break;
+                            }
+                            IteratedSolution::Unknown => {
+                                out.push("nonterm iterate-resumed");
+                                break;
+                            }
+                        }
+                        if sols.len() > 3000 {
+                            break;
+                        }
+                    }
+                }
+                let flat: Vec<String> = sols.iter().map(|s| fmt_vals(s)).collect();
+                if finished {
+                    out.push(format!("solset interrupted@{} {} {} {}", k, sols.len(), m.vars.len(), flat.join(" ")));
+                } else {
+                    out.push(format!("subset interrupted@{} {} {} {}", k, sols.len(), m.vars.len(), flat.join(" ")));
+                }
+            }
+            _ => {
+                // optimise: interrupted run must give Unknown / a valid best-so-far / the correct optimum
+                let _ = scen_optimise(m, setup, spec, Some(k), out);
+            }
+        }
+    }
+}
+
+// ---------------------------------------------------------------------------------------------
+// C10: a history of API calls on one solver
+// ---------------------------------------------------------------------------------------------
+
+#[derive(Clone, Debug)]
+pub enum Op {
+    NewVar(VarDecl),
+    Post(Cons),
+    Satisfy,
+    Assume(Vec<Atom>, bool),
+    Iterate(usize),
+    Optimise(OptSpec),
+}
+
+impl Op {
+    pub fn describe(&self) -> String {
+        match self {
+            Op::NewVar(d) => format!("newvar:{:?}:{}", d.kind, d.values.len()).to_lowercase(),
+            Op::Post(c) => format!("post:{}", c.full_kind()),
+            Op::Satisfy => "satisfy".into(),
+            Op::Assume(a, c) => format!("assume:{}:{}", a.len(), *c as u8),
+            Op::Iterate(k) => format!("iterate:{}", k),
+            Op::Optimise(s) => format!("optimise:{}:{}", if s.lus { "lus" } else { "lsu" }, if s.maximise { "max" } else { "min" }),
+        }
+    }
+}
+
+pub fn blocking_clause(sol: &[i32]) -> Cons {
+    Cons::Clause(sol.iter().enumerate().map(|(x, v)| Atom::Ne(x, *v)).collect())
+}
+
+/// Runs the history; after every operation that changes the accumulated model the model is
+/// re-emitted, and every answer is judged against the model accumulated so far.
+pub fn scen_history(initial: &Model, ops: &[Op], setup: &Setup, out: &mut Out) {
+    let mut solver = Solver::with_options(setup.opts.to_solver_options());
+    let mut vars = Vars { ids: vec![], lits: vec![] };
+    let mut sr = Rng::new(setup.style_seed);
+    let mut acc = Model { vars: initial.vars.clone(), cons: vec![] };
+    for d in &initial.vars {
+        declare_var(&mut solver, &mut vars, d, None, sr.next());
+    }
+    out.push(format!("model {}", acc.emit()));
+    let mut infeasible = false;
+    // the brancher is created lazily and re-created whenever variables are added
+    let mut brancher = make_brancher(&setup.bspec, &solver, &vars.ids);
+    for (i, op) in ops.iter().enumerate() {
+        out.meta(format!("op {} {}", i, op.describe()));
+        match op {
+            Op::NewVar(d) => {
+                if infeasible {
+                    continue; // documented: variables cannot be created in an inconsistent state
+                }
+                declare_var(&mut solver, &mut vars, d, None, sr.next());
+                acc.vars.push(d.clone());
+                brancher = make_brancher(&setup.bspec, &solver, &vars.ids);
+                out.push(format!("model {}", acc.emit()));
+            }
+            Op::Post(c) => {
+                let mut used = vec![];
+                c.vars(&mut used);
+                if used.iter().any(|v| *v >= vars.ids.len()) {
+                    continue; // refers to a variable whose creation was skipped
+                }
+                let r = post_cons(&mut solver, &vars, c, Mode::Post, None, sr.next());
+                acc.cons.push(c.clone());
+                out.push(format!("model {}", acc.emit()));
+                if r.is_err() {
+                    out.push(format!("verdict posterr-op{} unsat", i));
+                    infeasible = true;
+                }
+            }
+            Op::Satisfy => {
+                let mut t = StopAt::never();
+                match solver.satisfy(&mut brancher, &mut t) {
+                    SatisfactionResult::Satisfiable(sol) => {
+                        let _ = sol_record(out, &format!("op{}", i), sol.as_reference(), &vars);
+                    }
+                    SatisfactionResult::Unsatisfiable => {
+                        out.push(format!("verdict op{} unsat", i));
+                        infeasible = true;
+                    }
+                    SatisfactionResult::Unknown => out.push(format!("nonterm op{}", i)),
+                }
+            }
+            Op::Assume(assumptions, want_core) => {
+                if assumptions.iter().any(|a| a.var() >= vars.ids.len()) {
+                    continue;
+                }
+                let preds: Vec<Predicate> = assumptions.iter().map(|a| vars.pred(a)).collect();
+                let atoms = fmt_atoms(assumptions);
+                let mut t = StopAt::never();
+                match solver.satisfy_under_assumptions(&mut brancher, &mut t, &preds) {
+                    SatisfactionResultUnderAssumptions::Satisfiable(sol) => match extract(sol.as_reference(), &vars) {
+                        Some(vs) => out.push(format!("asol {} {}", atoms, fmt_vals(&vs))),
+                        None => out.push(format!("partial op{}", i)),
+                    },
+                    SatisfactionResultUnderAssumptions::UnsatisfiableUnderAssumptions(mut u) => {
+                        out.push(format!("averdict {} unsat", atoms));
+                        if *want_core {
+                            match catch_unwind(AssertUnwindSafe(|| u.extract_core())) {
+                                Ok(core) => {
+                                    let core_atoms: Vec<Atom> = core.iter().map(|p| atom_of(*p)).collect();
+                                    out.push(format!("core {} {}", atoms, fmt_atoms(&core_atoms)));
+                                }
+                                Err(_) => {
+                                    let msg = last_panic();
+                                    if msg.contains("Conflicting assumptions were provided") {
+                                        out.push(format!("conflicting {}", atoms));
+                                    } else {
+                                        out.push(format!("panic extract_core {}", msg.replace(' ', "_")));
+                                    }
+                                }
+                            }
+                        }
+                    }
+                    SatisfactionResultUnderAssumptions::Unsatisfiable => {
+                        out.push(format!("verdict op{} unsat", i));
+                        infeasible = true;
+                    }
+                    SatisfactionResultUnderAssumptions::Unknown => out.push(format!("nonterm op{}", i)),
+                }
+            }
+            Op::Iterate(k) => {
+                let mut t = StopAt::never();
+                let mut yielded: Vec<Vec<i32>> = vec![];
+                let mut ended = false;
+                {
+                    let mut it = solver.get_solution_iterator(&mut brancher, &mut t);
+                    while yielded.len() < *k {
+                        match it.next_solution() {
+                            IteratedSolution::Solution(sol, _, _) => match extract(sol.as_reference(), &vars) {
+                                Some(vs) => yielded.push(vs),
+                                None => {
+                                    out.push(format!("partial op{}", i));
+                                    break;
+                                }
+                            },
+                            IteratedSolution::Finished | IteratedSolution::Unsatisfiable => {
+                                ended = true;
+                                break;
+                            }
+                            IteratedSolution::Unknown => {
+                                out.push(format!("nonterm op{}", i));
+                                break;
+                            }
+                        }
+                    }
+                }
+                let flat: Vec<String> = yielded.iter().map(|s| fmt_vals(s)).collect();
+                if ended {
+                    out.push(format!("solset op{} {} {} {}", i, yielded.len(), acc.vars.len(), flat.join(" ")));
+                } else {
+                    out.push(format!("subset op{} {} {} {}", i, yielded.len(), acc.vars.len(), flat.join(" ")));
+                }
+                // blocking clauses which the iterator has added: all yielded solutions except the
+                // last one, which is only blocked by a further call
+                let blocked = if ended { yielded.len() } else { yielded.len().saturating_sub(1) };
+                for s in &yielded[..blocked] {
+                    acc.cons.push(blocking_clause(s));
+                }
+                if ended {
+                    infeasible = true;
+                }
+                out.push(format!("model {}", acc.emit()));
+            }
+            Op::Optimise(spec) => {
+                if spec.objective.var >= vars.ids.len() {
+                    continue;
+                }
+                let obj = vars.view(&spec.objective);
+                let dir = if spec.maximise { OptimisationDirection::Maximise } else { OptimisationDirection::Minimise };
+                let mut t = StopAt::never();
+                let no_callback: Option<fn(&Solver, SolutionReference<'_>, &BoxB)> = None;
+                let result = if spec.lus {
+                    solver.optimise(&mut brancher, &mut t, LinearUnsatSat::new(dir, obj, no_callback))
+                } else {
+                    solver.optimise(&mut brancher, &mut t, LinearSatUnsat::new(dir, obj, no_callback))
+                };
+                let dirs = if spec.maximise { "max" } else { "min" };
+                let mut objs = String::new();
+                spec.objective.emit(&mut objs);
+                match result {
+                    OptimisationResult::Optimal(sol) => {
+                        if let Some(vs) = sol_record(out, &format!("op{}", i), sol.as_reference(), &vars) {
+                            let best = spec.objective.eval(&vs);
+                            out.push(format!("opt {}{} {}", dirs, objs, best));
+                            if !spec.lus {
+                                // side effect of linear SAT-UNSAT: the cuts stay in the solver; the last
+                                // one (objective strictly better than the optimum) makes it infeasible
+                                let internal = if spec.maximise {
+                                    View { scale: -spec.objective.scale, offset: -spec.objective.offset, var: spec.objective.var }
+                                } else {
+                                    spec.objective
+                                };
+                                let internal_best = if spec.maximise { -best } else { best };
+                                acc.cons.push(Cons::LinLe(vec![internal], (internal_best - 1) as i32));
+                                infeasible = true;
+                                out.push(format!("model {}", acc.emit()));
+                            }
+                        }
+                    }
+                    OptimisationResult::Satisfiable(_) | OptimisationResult::Unknown => out.push(format!("nonterm op{}", i)),
+                    OptimisationResult::Unsatisfiable => {
+                        out.push(format!("verdict op{} unsat", i));
+                        infeasible = true;
+                    }
+                }
+            }
+        }
+    }
+    report_branch_log(&brancher, out);
+}
+
+// ---------------------------------------------------------------------------------------------
+// C17 / C02: explanation tap
+// ---------------------------------------------------------------------------------------------
+
+pub fn scen_tap(m: &Model, setup: &Setup, iterate_k: usize, out: &mut Out) {
+    use pumpkin_solver::verif_hooks::*;
+    use std::collections::BTreeSet;
+    let solver = Solver::with_options(setup.opts.to_solver_options());
+    tap_enable(true);
+    let _ = tap_drain();
+    // every constraint is posted with tag = index + 1 (clauses cannot be tagged)
+    let mut built = build(solver, m, false, true, setup.style_seed);
+    out.push(format!("model {}", m.emit()));
+    if let Some(i) = built.failed_at {
+        out.meta(format!("posterr at={} kind={}", i, m.cons[i].full_kind()));
+    } else {
+        let mut brancher = make_brancher(&setup.bspec, &built.solver, &built.vars.ids);
+        let mut term = StopAt::never();
+        let mut it = built.solver.get_solution_iterator(&mut brancher, &mut term);
+        let mut n = 0;
+        while n < iterate_k {
+            match it.next_solution() {
+                IteratedSolution::Solution(..) => n += 1,
+                _ => break,
+            }
+        }
+    }
+    tap_enable(false);
+    let records = tap_drain();
+    let nvars = m.vars.len();
+    let in_model = |p: &Predicate| (p.get_domain().id as usize) <= nvars;
+    let mut seen: BTreeSet<String> = BTreeSet::new();
+    let mut counts = [0usize; 4];
+    for r in &records {
+        // blocking clauses added by the iterator are not part of `m`: inferences of the nogood
+        // propagator are only checked for the first solve (iterate_k == 0) at model level
+        let all_in_model = r.reason.iter().all(in_model) && r.predicate.as_ref().map(in_model).unwrap_or(true);
+        if !all_in_model {
+            continue;
+        }
+        let prem: Vec<Atom> = r.reason.iter().map(|p| atom_of(*p)).collect();
+        let concl = r.predicate.map(atom_of);
+        let concl_s = match &concl {
+            Some(a) => {
+                let mut s = String::new();
+                a.emit(&mut s);
+                s.trim().to_string()
+            }
+            None => "none".to_string(),
+        };
+        let name = r.propagator.replace(' ', "");
+        let kind = match r.kind {
+            TapKind::Propagation => "prop",
+            TapKind::Conflict => "conflict",
+            TapKind::AnalysisReason => "analysis",
+            TapKind::Learned => "learned",
+        };
+        counts[r.kind as usize] += 1;
+        if !r.reason_all_true {
+            out.push(format!("bad reason-not-true kind={} propagator={} reason={} concl={}", kind, name, fmt_atoms(&prem).replace(' ', "_"), concl_s.replace(' ', "_")));
+        }
+        let line = match (r.kind, r.tag) {
+            (TapKind::Learned, _) if iterate_k <= 1 => format!("nogood learned {}", fmt_atoms(&prem)),
+            (TapKind::Learned, _) => continue,
+            (_, Some(t)) if (t as usize) <= m.cons.len() => {
+                format!("infer {}:{} {} {} {}", kind, name, m.cons[t as usize - 1].to_text(), fmt_atoms(&prem), concl_s)
+            }
+            _ if name == "implicit" => format!("infer {}:{} conj 0 {} {}", kind, name, fmt_atoms(&prem), concl_s),
+            // untagged propagator (clauses, learned nogoods): entailed by the model as a whole;
+            // only meaningful while no blocking clause has been added
+            _ if iterate_k <= 1 => format!("minfer {}:{} {} {}", kind, name, fmt_atoms(&prem), concl_s),
+            _ => continue,
+        };
+        if seen.len() < 400 && seen.insert(line.clone()) {
+            out.push(line);
+        }
+    }
+    out.meta(format!(
+        "tap records={} propagation={} conflict={} analysis={} learned={} distinct={}",
+        records.len(), counts[0], counts[1], counts[2], counts[3], seen.len()
+    ));
 }
